@@ -365,3 +365,71 @@ Fixpoint vspend (utxo : list N) (body : list ptx) : bool :=
   end.
 
 Definition spent_by (body : list ptx) : list N := flat_map p_ins body.
+
+
+(* ---------- third round: skipped pool transactions and the minimum-inclusion rule ----------
+   (added after the second set of blind changes, see design/C07.md)
+
+   (a) core/worker.go commitTransaction, generic path: snap := env.state.Snapshot();
+   ApplyTransaction(...); on error env.state.RevertToSnapshot(snap) and the transaction is
+   skipped.  ApplyTransaction may fail AFTER it wrote to the state (buyGas debits the sender
+   before ErrInsufficientFundsForTransfer; the whole message ran before "emits too many
+   cross-region / cross-prime ETXs"), so [apply] returns the state it leaves behind together
+   with the success flag.  [S] is the committed state; the per-block context that is not
+   committed (gas pool, ETX budgets) is not modelled: success is a function of the state. *)
+
+Inductive skip_policy := Revert | KeepEffects.
+
+Section Skip.
+  Variables S T : Type.
+  Variable apply : S -> T -> S * bool.
+
+  Definition wcommit (p : skip_policy) (st : S) (t : T) : S * bool :=
+    let '(st', ok) := apply st t in
+    if ok then (st', true)
+    else (match p with Revert => st | KeepEffects => st' end, false).
+
+  (* worker.commitTransactions, loop over the pool: (pending state, included list) *)
+  Fixpoint wfill (p : skip_policy) (st : S) (pool : list T) : S * list T :=
+    match pool with
+    | [] => (st, [])
+    | t :: r =>
+        let '(st1, ok) := wcommit p st t in
+        let '(st2, inc) := wfill p st1 r in
+        (st2, if ok then t :: inc else inc)
+    end.
+
+  (* StateProcessor.Process: re-executes the included list; the first failure rejects the block *)
+  Fixpoint vexec (st : S) (l : list T) : option S :=
+    match l with
+    | [] => Some st
+    | t :: r => let '(st', ok) := apply st t in if ok then vexec st' r else None
+    end.
+End Skip.
+
+(* (b) core/state_processor.go Process, after the transaction loop: oldestIndex :=
+   statedb.GetOldestIndex(); etx := statedb.ReadETX(oldestIndex); etxAvailable := etx != nil;
+   then, by regime, "total number of ETXs … is not within the range" / "total gas used by
+   ETXs … is not within the range".  The queue is the list of the gas amounts its ETXs use;
+   a block includes the first k of them (order and identity are checked in the loop).
+   [AfterPops]: the probe reads the head of the queue as the block's pops left it (the code);
+   [BeforePops]: the index is read before the loop; the slot it names is deleted by the first
+   pop, so the probe finds nothing as soon as the block pops at least one ETX. *)
+
+Inductive probe := AfterPops | BeforePops.
+
+Definition etx_available (p : probe) (q : list N) (k : nat) : bool :=
+  match p with
+  | AfterPops => Nat.ltb k (List.length q)
+  | BeforePops => match k with O => Nat.ltb 0 (List.length q) | Datatypes.S _ => false end
+  end.
+
+Definition gas_of (q : list N) (k : nat) : N := fold_right N.add 0 (firstn k q).
+
+(* gas regime (block number > TimeToStartTx) *)
+Definition rule_gas (p : probe) (q : list N) (k : nat) (minG maxG : N) : bool :=
+  negb ((etx_available p q k && (gas_of q k <? minG)) || (maxG <? gas_of q k)).
+
+(* count regime (block number <= TimeToStartTx) *)
+Definition rule_count (p : probe) (q : list N) (k : nat) (minC maxC : N) : bool :=
+  negb ((etx_available p q k && (N.of_nat k <? minC)) || (maxC <? N.of_nat k)).
